@@ -52,4 +52,14 @@ TEXT = {
         "note": "Trusted: Lean kernel (+3 standard axioms), harness/abs/driver tie, bank keeper as ledger. Assumes the escrow module account is a blocked recipient (app.BlockedAddrs, observed by the harness) and differs from the storage module and fee-pool accounts.",
         "technique": "Lean 4 invariant by induction over histories + per-step model/implementation correspondence",
     },
+    "C03": {
+        "level": "Specification theorem of the reward loop for every file with a duplicate-free prover list, every failing subset and order (C03_each_prover_handled_once: stored list = filter of passing provers, each credited the file size exactly once, each failing one with a record removed and its provider burned exactly once, nothing else touched); exact payout bounds over sdk.Dec: |pay - floor(w*R/T)| <= 1 for R <= 10^18, sum of payouts <= released under n*R < 2*10^18 (with a decide-checked counterexample outside it), uncounted accounts and the module never gain. The pre-fix aliased loop is kept as a witness (skips and double counts). Tied to the code by per-block correspondence on the assembled app.",
+        "note": "Trusted: Lean kernel (+3 standard axioms), harness/abs/driver tie, bank keeper as ledger. Side conditions: amounts released per block <= 10^18 base units and provers x released < 2*10^18 (rounding bounds), sizes summed in arbitrary precision (as the repaired code does).",
+        "technique": "Lean 4 specification theorem of the reward loop + exact Dec rounding bounds + per-block model/implementation correspondence",
+    },
+    "C12": {
+        "level": "Theorems for every gauge (any amount, any length): after any reward time in the interval the cumulative release is trunc(ratio*A) independent of earlier reward blocks (C12_release_formula), within one unit of the linear schedule elapsed*A/total in whole microseconds for A <= 10^18 (C12_cumulative_is_linear), monotone in time (C12_monotone), between 0 and the deposit (C12_le_deposit, 0 at start, A at end), nothing outside the interval, released tokens go to the module account only, equal-id deposits merge into one gauge; pre-fix overwrite and duration-saturation witnesses by decide. Tied to the code by per-block correspondence.",
+        "note": "Trusted: Lean kernel (+3 standard axioms), harness/abs/driver tie, bank keeper as ledger. Deposits are what NewGauge callers put in; third-party transfers into a gauge account are outside the quantifier. What accrued after the last in-interval reward block stays in the gauge account (the statement releases nothing after End).",
+        "technique": "Lean 4 theorems over exact sdk.Dec gauge arithmetic + per-block model/implementation correspondence",
+    },
 }
